@@ -35,7 +35,8 @@ RULE = ("rounds of 2..16 client threads, each opening real TCP connections to on
         "(e.g. by a background retry) belongs to no interval and is reported. Late-answer rounds "
         "reach the signer over the TCP transport (a byte stream) and make one answer take "
         "10.5..61 s of virtual time: an answer that is given up on still arrives and would be "
-        "read as the answer to the next exchange")
+        "read as the answer to the next exchange. Slow-sender rounds have clients that connect "
+        "and send their request line 0.3..0.8 s later, whole or in two pieces")
 ASSUMPTIONS = [
     "schedules are those the OS produces under injected device delays; not enumerated",
     "a client whose connection times out is left open in the history (counted, not judged)",
@@ -45,13 +46,13 @@ FLOORS = {"quick": {"evaluations": 120, "pending_overlap_pairs": 150, "apdus_att
                     "slow_request_rounds": 1, "link_fault_rounds": 3,
                     "device_error_replies_in_fault_rounds": 3,
                     "state_replies_compared_with_device_state": 30,
-                    "advances_refused_by_device": 10, "late_answer_rounds_over_tcp": 2},
+                    "advances_refused_by_device": 10, "late_answer_rounds_over_tcp": 2, "slow_sender_rounds": 2},
           "thorough": {"evaluations": 15000, "pending_overlap_pairs": 100000,
                        "apdus_attributed": 200000, "replies_matched": 15000, "distinct": 300,
                        "slow_request_rounds": 5, "link_fault_rounds": 60,
                        "device_error_replies_in_fault_rounds": 100,
                        "state_replies_compared_with_device_state": 3000,
-                       "advances_refused_by_device": 1000, "late_answer_rounds_over_tcp": 40}}
+                       "advances_refused_by_device": 1000, "late_answer_rounds_over_tcp": 40, "slow_sender_rounds": 40}}
 
 
 def shards(tier, seed):
@@ -59,11 +60,13 @@ def shards(tier, seed):
         return [{"seed": seed * 100 + i, "rounds": 2, "max_clients": 8, "per_client": 3,
                  "slow": [6.5] if i == 0 else [],
                  "fault_rounds": 1 if 1 <= i <= 3 else 0,
-                 "late": [12.5] if i in (4, 5) else []} for i in range(8)]
+                 "late": [12.5] if i in (4, 5) else [],
+                 "slowsend_rounds": 1 if i in (6, 7) else 0} for i in range(8)]
     slow = {0: [6.5], 1: [12.0], 2: [32.0], 3: [62.0], 4: [125.0]}
     return [{"seed": seed * 100 + i, "rounds": 60, "max_clients": 16, "per_client": 4,
              "slow": slow.get(i, []), "fault_rounds": 6 if i >= 5 else 0,
-             "late": [10.5, 12.5, 30.0, 61.0] if i >= 5 else []} for i in range(16)]
+             "late": [10.5, 12.5, 30.0, 61.0] if i >= 5 else [],
+             "slowsend_rounds": 3} for i in range(16)]
 
 
 class Recorder:
@@ -183,7 +186,7 @@ def expected_from_apdus(kind, apdus):
     return exp
 
 
-def run_round(acc, spec, rnd, rng, slow=None, fault=None, late=None):
+def run_round(acc, spec, rnd, rng, slow=None, fault=None, late=None, slowsend=False):
     """fault: {"after": k, "efail": j, "kind": ...} - the link fails at the k-th exchange
     of the round and the next j reconnections find no device; clients keep sending for
     some seconds, so that any repair work done outside a request (a background retry)
@@ -265,6 +268,9 @@ def run_round(acc, spec, rnd, rng, slow=None, fault=None, late=None):
                 plan[c] = [("state", byname["state"])] if c == 0 else \
                     [("signhash", byname["signhash"]), ("pubkey", byname["pubkey"])]
         barrier = threading.Barrier(nclients)
+        ssrng = random.Random(rng.getrandbits(32))
+        if slowsend:
+            acc.count("slow_sender_rounds")
         if fault:
             from ..simdev.transport import Fault
             s.bus.arm({fault["after"]: Fault(fault["kind"])})
@@ -303,6 +309,15 @@ def run_round(acc, spec, rnd, rng, slow=None, fault=None, late=None):
                 try:
                     cs = socket.create_connection(("127.0.0.1", port), timeout=60 + (slow or 0))
                     cs.settimeout(60 + (slow or 0))
+                    if slowsend and ssrng.random() < 0.4:
+                        # connected, but the request line comes later (in one piece or in
+                        # two): whatever the server does with such a client meanwhile,
+                        # requests may not meet on the device
+                        time.sleep(0.3 + ssrng.random() * 0.5)
+                        if ssrng.random() < 0.5:
+                            cs.sendall(line[:len(line) // 2])
+                            time.sleep(0.3)
+                            line = line[len(line) // 2:]
                     cs.sendall(line)
                     data = b""
                     while True:
@@ -457,6 +472,8 @@ def run_shard(spec, acc):
     for k, total in enumerate(spec.get("slow", [])):
         acc.count("slow_request_rounds")
         run_round(acc, spec, 1000 + k, rng, slow=total)
+    for k in range(spec.get("slowsend_rounds", 0)):
+        run_round(acc, dict(spec, max_clients=5, per_client=3), 4000 + k, rng, slowsend=True)
     for k, d in enumerate(spec.get("late", [])):
         acc.count("late_answer_rounds_over_tcp")
         run_round(acc, spec, 3000 + k, rng, late=d)
